@@ -106,3 +106,14 @@ Print Assumptions C17_former_finding_F17_repaired.
 Theorem C17_mount_extraction_never_panics : forall cf st dest src rm, snd (walk_mount_static cf st dest src rm) <> SPanic.
 Proof. exact walk_mount_static_np. Qed.
 Print Assumptions C17_mount_extraction_never_panics.
+
+(* the copier never panics, for every host tree, mounts table, secret list and block store (this was refuted by
+   finding F17 until commit d81649d, and needs C10's no_panic theorem for the Extract calls) *)
+Theorem C17_copy_never_panics : forall cf st, fst (copy_model cf st) <> RPanic.
+Proof. exact copy_no_panic. Qed.
+Print Assumptions C17_copy_never_panics.
+
+Theorem C17_walk_never_panics : forall cf b depth st dest src via below,
+  snd (walk cf b depth st dest src via below) <> SPanic.
+Proof. exact walk_no_panic. Qed.
+Print Assumptions C17_walk_never_panics.
